@@ -1122,8 +1122,237 @@ def rule_name(repo):
     _placeholder_name(r, repo)
     _param_flow(r, repo)
     _argspec_kinds(r, repo)
-    r.require_floor(24)
+    _param_kinds(r, repo)
+    _lambda_block_names(r, repo)
+    _file_names(r, repo)
+    r.require_floor(30)
     return r
+
+
+def _param_kinds(r, repo):
+    """What a construct() parameter contributes to the module name, decided per kind of value {class, BitStruct class,
+    function / lambda / other callable, plain value}: the bare __name__ only for classes; a callable must contribute
+    neither its bare __name__ (closures of one factory alias) nor str()/repr() (contains the object's address: the
+    module name changes from process to process)."""
+    um = repo.mod(RUTIL)
+    f = um.get_func('get_component_full_name')
+    gs = [n for n in ast.walk(f) if isinstance(n, ast.FunctionDef) and n is not f]
+    if len(gs) != 1:
+        raise AnalysisError("get_component_full_name: the helper rendering one parameter value not found")
+    g = gs[0]
+    p0 = g.args.args[0].arg
+
+    def mk_leaf(kind):
+        cls = kind in ('class', 'bitstruct')
+        fn = kind == 'function'
+
+        def leaf(e):
+            if not isinstance(e, ast.Call):
+                return NotImplemented
+            nm = norm(e.func).split('.')[-1]
+            a0 = norm(e.args[0]) if e.args else None
+            if a0 != p0:
+                return NotImplemented
+            if nm == 'isinstance' and len(e.args) == 2:
+                names = {x.id for x in ast.walk(e.args[1]) if isinstance(x, ast.Name)} | \
+                        {x.attr for x in ast.walk(e.args[1]) if isinstance(x, ast.Attribute)}
+                res = False
+                for t in names:
+                    if t == 'type':
+                        res = res or cls
+                    elif t in ('FunctionType', 'LambdaType', 'MethodType', 'BuiltinFunctionType', 'Callable', 'partial'):
+                        res = res or fn
+                    elif t in ('int', 'str', 'float', 'bool', 'tuple', 'list', 'dict', 'Bits', 'bytes'):
+                        res = res or kind == 'value'
+                    elif t in ('types', 'typing', 'collections', 'abc', 'functools'):
+                        continue
+                    else:
+                        raise AnalysisError(f"get_string: isinstance test against an unknown type {t}")
+                return res
+            if nm in ('isclass',):
+                return cls
+            if nm in ('isfunction', 'ismethod', 'isroutine', 'isbuiltin'):
+                return fn
+            if nm == 'callable':
+                return cls or fn
+            if nm == 'hasattr' and len(e.args) == 2 and isinstance(e.args[1], ast.Constant):
+                if e.args[1].value in ('__name__', '__qualname__', '__call__', '__module__'):
+                    return cls or fn
+                if e.args[1].value in ('__code__', '__closure__', '__defaults__'):
+                    return fn
+                raise AnalysisError(f"get_string: hasattr test outside the domain: {norm(e)}")
+            if nm == 'is_bitstruct_class':
+                return kind == 'bitstruct'
+            if nm == 'is_bitstruct_inst':
+                return False
+            return NotImplemented
+        return leaf
+
+    def reached(stmts, leaf):
+        """(terminal statements reachable for this kind, may fall through); a test that does not depend on the kind of the
+        value (a cache lookup, ...) is followed both ways"""
+        out = []
+        for st in stmts:
+            if isinstance(st, ast.If):
+                r.evaluations += 1
+                try:
+                    branches = [st.body if Evaluator({}, arith=False, leaf=leaf).ev(st.test) else st.orelse]
+                except AnalysisError:
+                    branches = [st.body, st.orelse]
+                falls = False
+                for b in branches:
+                    o, ft = reached(b, leaf)
+                    out += o
+                    falls = falls or ft
+                if not falls:
+                    return out, False
+            elif isinstance(st, (ast.Return, ast.Raise)):
+                out.append(st)
+                return out, False
+            elif isinstance(st, (ast.Assign, ast.AugAssign, ast.Expr, ast.Pass)):
+                continue
+            else:
+                raise AnalysisError(f"get_string: statement outside the domain: {norm(st)[:60]}")
+        return out, True
+    for kind in ('class', 'bitstruct', 'function', 'value'):
+        terms, falls = reached(g.body, mk_leaf(kind))
+        cons = f"construct() parameter that is a {kind}"
+        if falls or not terms:
+            r.bad(um, qualname(g), cons, "falls off the end: the parameter contributes the text `None`", g.lineno)
+            continue
+        rets = [t for t in terms if isinstance(t, ast.Return)]
+        if not rets:
+            r.ok(um, qualname(g), cons, note="rejected")
+            continue
+        verdicts = []
+        for ret in rets:
+            verdicts.append(_judge_param_return(r, um, g, p0, kind, cons, ret))
+        if all(verdicts):
+            r.ok(um, qualname(g), cons, note=norm(rets[0])[:60])
+
+
+def _judge_param_return(r, um, g, p0, kind, cons, ret):
+    """True if fine; reports and returns False otherwise"""
+    v = _inline(ret.value, g) if ret.value is not None else None
+    bare_name = isinstance(v, ast.Attribute) and v.attr in ('__name__', '__qualname__') and norm(v.value) == p0
+    addr = (isinstance(v, ast.Call) and norm(v.func) in ('str', 'repr') and [norm(a) for a in v.args] == [p0]) or \
+           (isinstance(v, ast.JoinedStr) and len(v.values) == 1 and isinstance(v.values[0], ast.FormattedValue) and
+            norm(v.values[0].value) == p0)
+    if kind == 'function' and bare_name:
+        r.bad(um, qualname(g), cons + " rendered as its bare __name__",
+              f"`{norm(ret)}` is reached for functions / lambdas / other callables: two closures made by one factory (or "
+              f"two lambdas) have the same __name__, so instances built with different functions share one module name "
+              f"while their bodies differ", ret.lineno)
+    elif kind == 'function' and addr:
+        r.bad(um, qualname(g), cons + " rendered as str(obj)",
+              f"`{norm(ret)}` is reached for functions / lambdas / other callables: the default repr contains the object's "
+              f"address (`<function f at 0x7f...>`), so the full name, the hashed module name and the emitted text differ "
+              f"from process to process", ret.lineno)
+    elif kind in ('class', 'bitstruct') and v is not None and p0 not in _names_of_raw(v):
+        r.bad(um, qualname(g), cons, f"`{norm(ret)}` does not depend on the class", ret.lineno)
+    else:
+        return True
+    return False
+
+
+LEVEL3 = 'pymtl3/dsl/ComponentLevel3.py'
+REPR_FORMS = ('s.y', 's.x[0]', 's.a.b[1][2:4]', 's.a[1:3]', 's.w[1][2].z', 's.q[0:8].k')
+
+
+def _lambda_block_names(r, repo):
+    """names of generated update blocks (lambda connections) are emitted as block labels: the builder must turn every
+    character of the signal's repr that is illegal in an identifier into a legal one"""
+    m = repo.mod(LEVEL3)
+    f = m.get_func('ComponentLevel3._create_assign_lambda')
+    defs = [c for c in ast.walk(f) if isinstance(c, ast.Call) and norm(c.func).endswith('FunctionDef')]
+    names = [k.value for c in defs for k in c.keywords if k.arg == 'name']
+    names = [n for n in names if any(isinstance(c, ast.Call) and norm(c.func) == 'repr' for c in ast.walk(_inline(n, f)))]
+    if len(names) != 1:
+        raise AnalysisError("_create_assign_lambda: the generated update block FunctionDef(name=<from repr(signal)>) not found")
+    expr = _inline(names[0], f)
+    badform = None
+    for form in REPR_FORMS:
+        class E(_MiniExec):
+            def ev_Call(self, e, form=form):
+                if isinstance(e.func, ast.Name) and e.func.id == 'repr':
+                    return form
+                if isinstance(e.func, ast.Attribute) and norm(e.func.value) == 're' and e.func.attr == 'sub' and len(e.args) == 3:
+                    return re.sub(self.ev(e.args[0]), self.ev(e.args[1]), self.ev(e.args[2]))
+                if isinstance(e.func, ast.Attribute) and e.func.attr == 'translate':
+                    raise AnalysisError("str.translate in the block-name builder is outside the domain")
+                return super().ev_Call(e)
+        r.evaluations += 1
+        got = E({}, arith=True).ev(expr)
+        if not (isinstance(got, str) and re.fullmatch(r'[A-Za-z_][A-Za-z0-9_$]*', got)) and badform is None:
+            badform = (form, got)
+    cons = "block name of a lambda connection is a legal identifier for every signal repr"
+    if badform:
+        r.bad(m, 'ComponentLevel3._create_assign_lambda', cons,
+              f"for the signal `{badform[0]}` the generated update block is called {badform[1]!r}; the translators emit the "
+              f"block name as the label of the always block (`begin : {badform[1]}`), which is not a legal identifier",
+              names[0].lineno)
+    else:
+        r.ok(m, 'ComponentLevel3._create_assign_lambda', cons)
+
+
+def _file_names(r, repo):
+    """the output file is named after the same unique (parameter-carrying) name as the top module unless the user gave
+    an explicit file name: otherwise two translated sub-hierarchies of one class overwrite each other's file"""
+    impls = [(m, f) for rel in (VPASS, YTRANS + 'YosysTranslationPass.py') for m in [repo.mod(rel)]
+             for f in ast.walk(m.tree) if isinstance(f, ast.FunctionDef) and f.name == 'traverse_hierarchy']
+    if not impls:
+        raise AnalysisError("anchor vanished: traverse_hierarchy")
+    for m, f in impls:
+        la = _local_assignments(f)
+        paths = set()
+        for c in ast.walk(f):
+            if isinstance(c, ast.Call) and norm(c.func) == 'open' and len(c.args) >= 2 and isinstance(c.args[1], ast.Constant) \
+                    and 'w' in str(c.args[1].value):
+                paths |= _names_of_raw(c.args[0])
+            if isinstance(c, ast.Call) and norm(c.func) in ('os.rename', 'os.replace', 'shutil.move'):
+                for a in c.args:
+                    paths |= _names_of_raw(a)
+        paths &= set(la)
+        if not paths:
+            raise AnalysisError(f"{m.rel}: no written output file found in traverse_hierarchy")
+
+        def marker(e):
+            for x in ast.walk(e):
+                if isinstance(x, ast.Attribute) and x.attr == '_top_module_full_name':
+                    return True
+                if isinstance(x, ast.Call) and isinstance(x.func, ast.Attribute) and x.func.attr == 'get_metadata' and \
+                        'explicit_file_name' in norm(x):
+                    return True
+            return False
+
+        def witness(nm, e, seen):
+            """an assignment on which the path name lacks the unique name"""
+            if marker(e):
+                return None
+            subs = [n2 for n2 in _names_of_raw(e) if n2 in la and n2 not in seen and any(x is not None for x in la[n2])]
+            if not subs:
+                return (nm, e)
+            first = None
+            for n2 in subs:
+                ws = [witness(n2, v2, seen | {n2}) for v2 in la[n2] if v2 is not None]
+                ws = [w for w in ws if w is not None]
+                if not ws:
+                    return None            # this variable carries the unique / explicit name on all its assignments
+                first = first or ws[0]
+            return first
+        for pth in sorted(paths):
+            cons = f"output file `{pth}`"
+            ws = [witness(pth, v, {pth}) for v in la[pth] if v is not None]
+            ws = [w for w in ws if w is not None]
+            if ws:
+                nm, val = ws[0]
+                r.bad(m, qualname(f), cons,
+                      f"`{nm} = {norm(val)[:80]}` names the output file without the unique module name "
+                      f"(`_top_module_full_name`) or an explicit file name: two enabled sub-hierarchies of the same class with "
+                      f"different parameters are written to the same file and the second overwrites the first",
+                      getattr(val, 'lineno', f.lineno))
+            else:
+                r.ok(m, qualname(f), cons)
 
 
 def _argspec_kinds(r, repo):
@@ -2785,6 +3014,18 @@ MUTANTS = [
     _m('loop-variable-not-checked', VTRANS + 'behavioral/VBehavioralTranslatorL2.py',
        "  def visit_LoopVarDecl( s, node ):\n    s.check_res( node, node.name )\n", "  def visit_LoopVarDecl( s, node ):\n",
        'R-C13-reserved'),
+    # --- round 6: parameter kinds, generated block names, output file names
+    _m('callable-parameter-by-bare-name', RUTIL, "    if isinstance(obj, type):", "    if hasattr(obj, '__name__'):", 'R-C13-name'),
+    _m('callable-parameter-by-bare-name-callable-test', RUTIL, "    if isinstance(obj, type):", "    if callable(obj):", 'R-C13-name'),
+    _m('lambda-block-name-keeps-colon', LEVEL3,
+       'replace("]", "_").replace(":", "_") )', 'replace("]", "_") )', 'R-C13-name'),
+    _m('lambda-block-name-keeps-brackets', LEVEL3,
+       'repr(o).replace(".","_").replace("[", "_").replace("]", "_").replace(":", "_")',
+       'repr(o).replace(".","_").replace(":", "_")', 'R-C13-name'),
+    _m('output-file-named-by-class', VPASS, '        filename = f"{module_name}__pickled"',
+       '        filename = f"{s.translator._top_module_name}__pickled"', 'R-C13-name'),
+    _m('module-name-for-file-from-class-name', VPASS, "      module_name = s.translator._top_module_full_name",
+       "      module_name = s.translator._top_module_name", 'R-C13-name'),
     # --- R-C13-state
     _m('translator-state-initialised-once', VTRANSLATOR,
        "      s._mangled_placeholder_top_module_name = ''\n      s._included_pickled_files = set()\n",
@@ -2941,6 +3182,12 @@ EQUIV = [
     _m('seq-block-label-checked-on-attribute', VTRANS + 'behavioral/VBehavioralTranslatorL1.py',
        "    s.upblk_type = s.SEQUENTIAL\n\n    s.check_res( node, blk_name )\n",
        "    s.check_res( node, node.name )\n    s.upblk_type = s.SEQUENTIAL\n", None),
+    _m('lambda-block-name-by-regex', LEVEL3,
+       '"_lambda__{}".format( repr(o).replace(".","_").replace("[", "_").replace("]", "_").replace(":", "_") )',
+       '"_lambda__" + re.sub( r"[^A-Za-z0-9_]", "_", repr(o) )', None),
+    _m('output-file-name-via-helper-local', VPASS, '        filename = f"{module_name}__pickled"',
+       '        stem = module_name\n        filename = stem + "__pickled"', None),
+    _m('class-test-with-inspect', RUTIL, "    if isinstance(obj, type):", "    if inspect.isclass(obj):", None),
     _m('local-renamed-in-unique-name', VUTIL, "  param_name = param_hash.hexdigest()\n  return comp_name + \"__\" + param_name",
        "  digest = param_hash.hexdigest()\n  return comp_name + \"__\" + digest", None),
 ]
